@@ -60,6 +60,57 @@ func genEffects(c *Ctx) string {
 			}
 		}
 		local := map[string]bool{}
+		// a local bound to the receiver / a shared parameter itself, to the address of something reached through
+		// one, or to one of its members is an alias: writing through it writes the caller's data
+		aliasRoot := func(e ast.Expr) (string, bool) {
+			viaAddr := false
+			for {
+				switch y := e.(type) {
+				case *ast.UnaryExpr:
+					if y.Op == token.AND {
+						viaAddr = true
+						e = y.X
+						continue
+					}
+				case *ast.SelectorExpr:
+					e = y.X
+					continue
+				case *ast.IndexExpr:
+					e = y.X
+					continue
+				case *ast.ParenExpr:
+					e = y.X
+					continue
+				}
+				break
+			}
+			id, ok := e.(*ast.Ident)
+			if !ok {
+				return "", false
+			}
+			why, sh := shared[id.Name]
+			_ = viaAddr
+			return id.Name, sh && why != ""
+		}
+		ast.Inspect(fd.Body, func(n ast.Node) bool {
+			if x, ok := n.(*ast.AssignStmt); ok && len(x.Lhs) == len(x.Rhs) {
+				for i, l := range x.Lhs {
+					id, isId := l.(*ast.Ident)
+					if !isId || id.Name == "_" {
+						continue
+					}
+					switch r := x.Rhs[i].(type) {
+					case *ast.Ident, *ast.UnaryExpr, *ast.SelectorExpr, *ast.IndexExpr, *ast.ParenExpr:
+						if root, sh := aliasRoot(r); sh {
+							if _, already := shared[id.Name]; !already {
+								shared[id.Name] = "alias of " + root + " through"
+							}
+						}
+					}
+				}
+			}
+			return true
+		})
 		ast.Inspect(fd.Body, func(n ast.Node) bool {
 			switch x := n.(type) {
 			case *ast.AssignStmt:
